@@ -69,8 +69,8 @@ UNMODELLED = [
     "polynomial ops mpqs_poly / mpqs_batchinv call prepare_prime and batch_inversion directly with a fresh workspace",
     "bnum U1024/U256/I256 operators and num_integer::sqrt are modelled as the mathematical operations with explicit range checks; "
     "slice::sort_by_key/sort as a stable merge sort, BTreeSet as a strictly increasing list",
-    "the model has the semantics of the checked profile: where the release profile wraps instead (shift amount >= 64 in select_a for 17 "
-    "factors and more, debug_assert-only checks) the comparison is run in the checked profile only",
+    "the model has the semantics of the checked profile: where the release profile continues instead (debug_assert-only checks, "
+    "underflow in make_poly) the comparison is run in the checked profile only",
 ]
 
 SMALL_PRIMES = [p for p in range(2, 200) if all(p % q for q in range(2, p))]
@@ -200,9 +200,9 @@ def oracle_siqs(case, h, body):
     if msg:
         return msg
     if body in ("sel-panic", "no-a"):
-        # no polynomial was handed to the sieve. With the driver's own parameters this must not happen (below 425 bits, where
-        # the checked profile stops at the 64-bit mask of select_a); with forced parameters it is compared with the model only.
-        if case.op == "siqs_walk" and case.args[2:6] == ["auto"] * 4 and N.bit_length() < 425:
+        # no polynomial was handed to the sieve. With the driver's own parameters this must not happen; with forced parameters it
+        # is compared with the model only.
+        if case.op == "siqs_walk" and case.args[2:6] == ["auto"] * 4:
             return f"selection of A failed ({body}) with the driver's own parameters"
         return None
     toks = body.split(" ")
@@ -398,7 +398,7 @@ def oracle_select(case, h, body):
     if msg:
         return msg
     if body.endswith("sel-panic") or body.endswith("a-panic"):
-        if case.args[2:6] == ["auto"] * 4 and N.bit_length() < 425:
+        if case.args[2:6] == ["auto"] * 4:
             return "panic in select_siqs_factors/select_a with the driver's own parameters"
         return None
     kv = dict(t.split("=", 1) for t in body.split(" "))
@@ -468,6 +468,8 @@ def oracle_qs(case, h, body):
 
 
 def oracle(case, ans):
+    if ans == "hang" and case.op == "siqs_select" and case.args[3:5] != ["auto", "auto"]:
+        return None                     # forced nfacs / interval size: termination of select_a is conditional (select_a_never_returns)
     if ans in ("panic", "abort", "hang", "?"):
         return f"no answer ({ans})"
     h, body = split_answer(ans)
@@ -629,11 +631,13 @@ def siqs_select_cases(rng, tier, scale):
             fbs = min(fbs, 8000)
             nf = "auto" if style < 3 else max(1, nfactors((n * k).bit_length()) + rng.choice([-2, -1, 1, 2]))
             mm = "auto" if style < 3 else rng.choice([4096, 32768, 262144])
-            yield Case(f"siqs_select {n} {k} {fbs} {nf} {mm} {rng.choice([1, 3, 8, 20])}", k=False, tag="sel")
-    # 17 factors and more (n*k of 425 bits and more): the mask of select_a has 64 bits; the checked profile stops at `1 << g`
+            # forced nfacs / interval: select_a may not terminate (no poll, no bound): short watchdog, a hang is not judged
+            yield Case(f"siqs_select {n} {k} {fbs} {nf} {mm} {rng.choice([1, 3, 8, 20])}", k=False, tag="sel",
+                       timeout=(None if style < 3 else 8))
+    # 17 factors (n*k of 425..448 bits): more than 64 selected primes (the mask of select_a, 64 bits wide before the fix e726329)
     for _ in range(2 if tier == "quick" else 6):
-        n = semiprime(rng, rng.choice([430, 440, 460]), rng.choice([1, 3, 5, 7]))
-        yield Case(f"siqs_select {n} 1 6000 auto auto 4", k=False, o=False, profiles=["chk"], tag="sel-17")
+        n = semiprime(rng, rng.choice([430, 440, 447]), rng.choice([1, 3, 5, 7]))
+        yield Case(f"siqs_select {n} 1 6000 auto auto 4", k=False, tag="sel-17")
 
 
 def d_primes_3mod4(lo, count, N=None):
